@@ -627,6 +627,12 @@ fn check_delivery(w: &Arc<World>, p: &Plan, ops: &[OpRec], events: &[RecEvent], 
                         }
                     }
                     (Res::Err(e), true) => w.violation("delivered-despite-error", format!("send #{} of task {} returned {} but was handled", o.k, ti, e)),
+                    (Res::Err(e), false) => {
+                        // the identifier of a process that never terminates resolves for its whole life
+                        if !failed_at.contains_key(&pi) {
+                            w.violation("live-pid-rejected", format!("send #{} of task {} to process {}, which never terminated, was refused: {}", o.k, ti, pi, e));
+                        }
+                    }
                     _ => {}
                 }
             }
